@@ -2,11 +2,15 @@
 list-of-struct ports moved around by connections only (no behavioural access), directly and through a child."""
 from vt import ir
 from vt.ir import B, S, L, ref
-from vt.irgen import Sab, Npc, SLal, comp
+from vt.irgen import Sab, Npc, SLal, comp, leaves
 
 S2D = S("S2D", ("hdr", B(2)), ("arr", L(L(B(2), 3), 2)), ("tl", B(1)))
 SLS = S("SLS", ("q", L(Sab, 2)), ("z", B(1)))
-TYPES = [("Sab", Sab), ("Npc", Npc), ("SLal", SLal), ("S2D", S2D), ("SLS", SLS)]
+S3D = S("S3D", ("hdr", B(1)), ("cube", L(L(L(B(2), 2), 3), 2)))                                       # three packed-array dimensions
+SL3 = S("SL3", ("a", B(2)), ("l", L(B(2), 3)))                                                          # list field whose size differs from the port-list size (2)
+INN = S("Inn", ("tag", B(1)), ("v", L(B(1), 3)))
+PKT = S("Pkt", ("hd", B(1)), ("arr", L(B(2), 3)), ("inn", L(INN, 2)))                                   # list of structs that hold lists, next to a list of another size
+TYPES = [("Sab", Sab), ("Npc", Npc), ("SLal", SLal), ("S2D", S2D), ("SLS", SLS), ("S3D", S3D), ("SL3", SL3), ("Pkt", PKT)]
 
 
 def designs():
@@ -20,6 +24,13 @@ def designs():
     chl = comp("SpCL", [("i", "in", t, (2,)), ("o", "out", t, (2,))], connects=[(ref("o", ("i", 0)), ref("i", ("i", 1))), (ref("o", ("i", 1)), ref("i", ("i", 0)))])
     yield f"sp:{tn}:port-list-through-child", comp("SpTL", sig2, children=[("c", chl)],
           connects=[(ref("i", ("i", k), path=("c",)), ref("in_", ("i", k))) for k in (0, 1)] + [(ref("out", ("i", k)), ref("o", ("i", k), path=("c",))) for k in (0, 1)])
+  # behavioural READS of input struct ports only (no struct wire, nothing struct-typed is written by a block):
+  # every leaf of port 1 of a list of two struct ports is copied to its own Bits output, one leaf of port 0 by a connection
+  for tn, t in TYPES:
+    lv = list(leaves(t))
+    sigs = [("in_", "in", t, (2,))] + [(f"o{k}", "out", B(w), ()) for k, (acc, w) in enumerate(lv)] + [("p0", "out", B(lv[-1][1]), ())]
+    blk = ("rd", "comb", [("=", ref(f"o{k}"), ref("in_", ("i", 1), *acc)) for k, (acc, w) in enumerate(lv)])
+    yield f"sp:{tn}:read-leaves", comp("SpR", sigs, blocks=[blk], connects=[(ref("p0"), ref("in_", ("i", 0), *lv[-1][0]))])
   sig = [("in_", "in", Sab, ()), ("out", "out", Sab, ())]
   yield "sp:Sab:fields-swapped", comp("SpF", sig, connects=[(ref("out", ("f", "a")), ref("in_", ("f", "b"))), (ref("out", ("f", "b")), ref("in_", ("f", "a")))])
   sig = [("in_", "in", Npc, ()), ("out", "out", Npc, ()), ("o2", "out", B(2), ())]
